@@ -33,8 +33,10 @@ import (
 //	meta <A>                            -> nil | label=<hex> def=<b> scheme=<s> alg=<a>
 //	del <A> <pw>                        -> ok A<i> | nil | err:<class>
 //	setdef <A> | setlabel <A> <label> | chpw <A> <old> <new> | chsig <A> <scheme>  -> ok | err:<class>
+//	seclevel <low|def> <pw,..>          -> ok | err:count | err:failed:<i> | panic   (passwords in wallet-file order; ok is followed by a save)
 //	reload                              -> ok n=<GetAccountNum> file=<accounts in file>
 //	num                                 -> <n>
+//	auditlive                           -> ok     (the same on the live client)
 //	audit                               -> ok     (property oracle: every live account decrypts with its password to its key, not with another)
 type walletFam struct {
 	dir    string
@@ -42,6 +44,7 @@ type walletFam struct {
 	cli    *account.ClientImpl
 	keys   []*keyRec
 	live   []*liveAcc
+	order  []*liveAcc // the accounts in wallet-file order (walletData.Accounts)
 	caseNo int
 }
 
@@ -79,6 +82,7 @@ func (f *walletFam) Reset(r *hx.Run) {
 	f.cli = nil
 	f.keys = nil
 	f.live = nil
+	f.order = nil
 }
 
 func (f *walletFam) sym(addr string) string {
@@ -224,6 +228,7 @@ func (f *walletFam) Exec(r *hx.Run, op []string) string {
 		}
 		f.keys = append(f.keys, &keyRec{acc.PrivateKey, acc.PublicKey, acc.Address.ToBase58(), algName(acc.PrivateKey)})
 		f.live = append(f.live, &liveAcc{key: len(f.keys) - 1, pw: append([]byte{}, pw...), mode: "new"})
+		f.order = append(f.order, f.live[len(f.live)-1])
 		return f.addOutcome(len(f.keys) - 1)
 	case "import":
 		label := string(hx.UnHex(op[1]))
@@ -271,6 +276,7 @@ func (f *walletFam) Exec(r *hx.Run, op []string) string {
 			}
 		}
 		f.live = append(f.live, &liveAcc{key: ki, pw: append([]byte{}, pw...), mode: op[4]})
+		f.order = append(f.order, f.live[len(f.live)-1])
 		return f.addOutcome(ki)
 	case "get":
 		return f.accResult(f.cli.GetAccountByAddress(f.realAddr(op[1]), hx.UnHex(op[2])))
@@ -292,9 +298,10 @@ func (f *walletFam) Exec(r *hx.Run, op []string) string {
 		acc, err := f.cli.DeleteAccount(addr, hx.UnHex(op[2]))
 		if err == nil && acc != nil {
 			// the code removes the first list entry with that address
-			for _, l := range f.live {
-				if !l.deleted && f.keys[l.key].addr == addr {
+			for i, l := range f.order {
+				if f.keys[l.key].addr == addr {
 					l.deleted = true
+					f.order = append(append([]*liveAcc{}, f.order[:i]...), f.order[i+1:]...)
 					break
 				}
 			}
@@ -339,6 +346,54 @@ func (f *walletFam) Exec(r *hx.Run, op []string) string {
 			return errClass(err)
 		}
 		return "ok"
+	case "seclevel":
+		// the CLI's `account export --low-security` path (WalletData.ToLowSecurity) and its counterpart, applied to the
+		// client's wallet data; a successful switch is written to the file, a refused one must leave everything as it was
+		var pws [][]byte
+		if op[2] != "-" {
+			for _, h := range strings.Split(op[2], ",") {
+				pws = append(pws, hx.UnHex(h))
+			}
+		}
+		wd := f.cli.GetWalletData()
+		var err error
+		crashed := false
+		func() {
+			defer func() {
+				if e := recover(); e != nil {
+					crashed = true
+					r.Viol("C43:seclevel-"+op[1]+"-panic", fmt.Sprintf("WalletData security-level switch (%s) panics: %v", op[1], e))
+				}
+			}()
+			if op[1] == "low" {
+				err = wd.ToLowSecurity(pws)
+			} else {
+				err = wd.ToDefaultSecurity(pws)
+			}
+		}()
+		if crashed {
+			return "panic"
+		}
+		if err != nil {
+			m := err.Error()
+			if strings.Contains(m, "not enough passwords") {
+				return "err:count"
+			}
+			var i int
+			if _, e := fmt.Sscanf(m, "re-encrypt account %d failed", &i); e == nil {
+				return fmt.Sprintf("err:failed:%d", i)
+			}
+			return "err:other:" + m
+		}
+		if err := wd.Save(f.path); err != nil {
+			return "err:io"
+		}
+		for _, l := range f.order {
+			if !strings.HasPrefix(l.mode, "reenc-") {
+				l.mode = "reenc-" + l.mode // re-encrypted by a security-level switch; was new / gcm / ctr before
+			}
+		}
+		return "ok"
 	case "reload":
 		c, err := account.NewClientImpl(f.path)
 		if err != nil {
@@ -351,6 +406,11 @@ func (f *walletFam) Exec(r *hx.Run, op []string) string {
 		return strconv.Itoa(f.cli.GetAccountNum())
 	case "audit":
 		return f.audit(r)
+	case "auditlive": // the same audit on the live client (no re-open)
+		if f.cli != nil {
+			f.auditOn(r, f.cli, "live")
+		}
+		return "ok"
 	}
 	return "bad-op"
 }
@@ -372,6 +432,12 @@ func (f *walletFam) audit(r *hx.Run) string {
 		r.Viol("C43:reload-fails", "a wallet file written by the client cannot be opened again: "+err.Error())
 		return "err:open"
 	}
+	f.auditOn(r, c, "reloaded")
+	return "ok"
+}
+
+func (f *walletFam) auditOn(r *hx.Run, c *account.ClientImpl, where string) {
+	probed := false
 	params := "default-scrypt"
 	if c.GetWalletData().Scrypt.N != keypair.DEFAULT_N {
 		params = "custom-scrypt"
@@ -387,11 +453,11 @@ func (f *walletFam) audit(r *hx.Run) string {
 		}
 		acc, err := c.GetAccountByAddress(k.addr, l.pw)
 		if err != nil || acc == nil {
-			r.Viol("C43:own-password-fails:"+kind, fmt.Sprintf("account A%d (%s) saved and reloaded cannot be decrypted with its own password: %v", l.key, kind, err))
+			r.Viol("C43:own-password-fails:"+kind, fmt.Sprintf("account A%d (%s, %s client) cannot be decrypted with its own password: %v", l.key, kind, where, err))
 		} else if !bytes.Equal(privBytes(acc.PrivateKey), privBytes(k.priv)) || acc.Address.ToBase58() != k.addr {
-			r.Viol("C43:wrong-key-after-reload:"+kind, fmt.Sprintf("account A%d (%s) decrypts to a different key pair / address after reload", l.key, kind))
+			r.Viol("C43:wrong-key-after-reload:"+kind, fmt.Sprintf("account A%d (%s, %s client) decrypts to a different key pair / address", l.key, kind, where))
 		}
-		for _, wrong := range [][]byte{flipLast(l.pw), []byte("x"), append([]byte("x"), l.pw...)} {
+		for _, wrong := range [][]byte{flipLast(l.pw), append([]byte("x"), l.pw...)} {
 			if bytes.Equal(hmacKey(wrong), hmacKey(l.pw)) {
 				continue
 			}
@@ -404,6 +470,10 @@ func (f *walletFam) audit(r *hx.Run) string {
 		// the password as an HMAC key: zero-padded to the block size, hashed when longer than it)
 		var equiv [][]byte
 		var what []string
+		if probed { // the HMAC-key equivalence is probed on one account per audit (each probe is a scrypt run)
+			continue
+		}
+		probed = true
 		if len(l.pw) < 64 {
 			equiv, what = append(equiv, append(append([]byte{}, l.pw...), 0)), append(what, "trailing-nul")
 		}
@@ -420,8 +490,8 @@ func (f *walletFam) audit(r *hx.Run) string {
 			}
 		}
 	}
-	return "ok"
 }
+
 
 // hmacKey is the HMAC-SHA256 key block of a password.
 func hmacKey(pw []byte) []byte {
@@ -615,6 +685,43 @@ func (f *walletFam) Gen(r *hx.Run) {
 			default:
 				r.Do("reload")
 				reloaded = true
+			}
+		}
+		// security-level switches (WalletData.ToLowSecurity / ToDefaultSecurity): first with one wrong password at a
+		// non-first position (must be refused and leave every account decryptable), then with the right ones
+		seclevel := func(kind string, wrongAt int) string {
+			var p []string
+			for i, l := range f.order {
+				pw := l.pw
+				if i == wrongAt {
+					pw = append(append([]byte{}, pw...), 'w', 'r')
+				}
+				p = append(p, hx.Hex(pw))
+			}
+			if len(p) == 0 {
+				return r.Do("seclevel " + kind + " -")
+			}
+			return r.Do("seclevel " + kind + " " + strings.Join(p, ","))
+		}
+		if c%2 == 0 || r.Thorough() {
+			if n := len(f.order); n >= 2 {
+				seclevel("low", 1+g.Intn(n-1))
+				used["seclevel-refused"] = true
+				r.Do("auditlive")
+			}
+			if g.Intn(4) == 0 {
+				var p []string
+				for _, l := range f.order {
+					p = append(p, hx.Hex(l.pw))
+				}
+				r.Do("seclevel low " + strings.Join(append(p, "70"), ",")) // one password too many
+			}
+			kind := "low"
+			if g.Intn(5) == 0 {
+				kind = "def"
+			}
+			if out := seclevel(kind, -1); out == "ok" {
+				used["seclevel-"+kind] = true
 			}
 		}
 		r.Do("reload")
